@@ -253,6 +253,7 @@ func vfRunCell(c vfCell, res *vfCellResult) {
 
 	failID := -1
 	var burstIDs []int
+	var gate *vfGate
 	switch c.Site {
 	case "msg":
 		op := "panic"
@@ -260,6 +261,11 @@ func vfRunCell(c vfCell, res *vfCellResult) {
 			op = "failed"
 		}
 		fr := w.ref(t.fail)
+		// hold the actor inside a handler while the burst is enqueued, so that "queued behind the failing
+		// message" is a fact of the run and not a race between the sender and the consumer
+		gate = newVfGate()
+		w.tell(fr, "actorof", &vfCmd{ID: w.newID(), Op: "gate", Arg: gate})
+		<-gate.entered
 		for i := 0; i < c.Burst; i++ {
 			cmd := &vfCmd{ID: w.newID(), Op: "noop", Sender: 0, Seq: i + 1}
 			if i == c.FailPos {
@@ -289,6 +295,9 @@ func vfRunCell(c vfCell, res *vfCellResult) {
 			otherIDs[n] = append(otherIDs[n], cmd.ID)
 			w.tellName(n, cmd)
 		}
+	}
+	if gate != nil {
+		close(gate.release)
 	}
 	w.settle(time.Second)
 	w.settle(time.Second)
